@@ -5,14 +5,17 @@ VARIABLE hist
 GInit == Init /\ hist = <<>>
 Step == CASE act'[1] = "Cmd" -> [act |-> "Cmd", c |-> act'[2], v |-> act'[3], w |-> act'[4], ev |-> ev']
           [] act'[1] = "Sched" -> [act |-> "Sched", id |-> act'[2], w |-> act'[3], ev |-> ev']
-          [] act'[1] = "ABegin" -> [act |-> "ABegin", n |-> act'[2], ev |-> ev']
+          [] act'[1] \in {"ABegin", "ABeginR"} -> [act |-> act'[1], n |-> act'[2], ev |-> ev']
           [] OTHER -> [act |-> act'[1], ev |-> ev']
 GNext == Next /\ hist' = Append(hist, Step)
 GSpec == GInit /\ [][GNext]_<<vars, hist>>
 Bound == Len(hist) <= D
 Emit == PrintT(<<"BEHAVIOUR", ToJson(hist)>>)
-Dump == (Len(hist) = D /\ apc = "idle" /\ rpc = "idle") => Emit
+Dump == (Len(hist) = D /\ apc = "idle" /\ rpc = "idle" /\ spc = "idle") => Emit
 GView == <<ivars, mon, bad>>
 WG_Torn == W_Torn \/ ~Emit
 WG_Own == W_Own \/ ~Emit
+\* (with ResetFirst = FALSE: the shortest schedule on which the code before fix D26 breaks "stopping resets it to zero")
+WG_D26 == (bad = "") \/ ~Emit
+WG_RacyStop == (apc = "idle" /\ spc = "idle" /\ mon.fuzzy = 0 /\ mon.settled) => ~Emit
 =============================================================================
